@@ -83,8 +83,25 @@ async def closing(w, last_view):
     frozen = set(w._frozen_parents()) if 'uncommitted-child-made-ready-by-parent-completion' in w.guards else set()
     if frozen:
         w.closing_blocked_by_guard = True
+    # a committed job that (transitively) depends on a job of an update that was never committed can never become ready: the
+    # submission itself is at fault (cf. C08: counted, not judged), so neither it nor its batch is judged
+    blocked = {k for k, j in v.jobs.items() if not v.committed(k[0], j['update_id'])}
+    parents = {}
+    for r in v.S['job_parents']:
+        parents.setdefault((r['batch_id'], r['job_id']), []).append((r['batch_id'], r['parent_id']))
+    grew = True
+    while grew:
+        grew = False
+        for k, ps in parents.items():
+            if k not in blocked and any(p in blocked for p in ps):
+                blocked.add(k)
+                grew = True
+    dangling = {k for k in blocked if v.committed(k[0], v.jobs[k]['update_id'])} if blocked else set()
+    if dangling:
+        w.closing_dangling_dependency = True
+    skip_batches = {fb for fb, _ in frozen} | {k[0] for k in dangling}
     for k, j in v.jobs.items():
-        if not v.committed(k[0], j['update_id']) or any(fb == k[0] for fb, _ in frozen):
+        if not v.committed(k[0], j['update_id']) or k[0] in skip_batches:
             continue          # (descendants of a withheld job cannot finish either: the whole batch is left unjudged)
         if j['state'] not in O.TERMINAL:
             return [('job-never-terminates', 'every job of a committed batch whose attempts finish reaches a terminal state',
@@ -93,7 +110,7 @@ async def closing(w, last_view):
         if j['always_run'] and j['state'] == 'Cancelled':
             return [('always-run-cancelled', 'always-run jobs of a cancelled batch still run to completion', f'job {k} always_run ended Cancelled')]
     for (b, g), grp in v.groups.items():
-        if any(fb == b for fb, _ in frozen):
+        if b in skip_batches:
             continue
         if g == 0 and any(u['committed'] and u['batch_id'] == b for u in v.S['batch_updates']) and grp['state'] != 'complete':
             js = [j for (bb, _), j in v.jobs.items() if bb == b and v.committed(b, j['update_id'])]
@@ -106,6 +123,8 @@ def extra(w):
     out = set()
     if getattr(w, 'closing_blocked_by_guard', False):
         out.add('closing_not_judged_for_frozen_parent')
+    if getattr(w, 'closing_dangling_dependency', False):
+        out.add('closing_not_judged_dependency_on_uncommitted_update')
     if getattr(w, 'fault_while_running', False):
         out.add('fault_while_running')
     if getattr(w, 'inconclusive', False):
